@@ -6,8 +6,9 @@
 //	(b) modules of the OPA conformance corpus (YAML)  (LoadOPA)
 //	(c) grammar-generated modules and mutations       (gen.go)
 //
-// A module that parses neither as Rego v1 nor as v0 (regal's own parse order) is outside the domain of
-// both properties and only counted.
+// A module that OPA's own parser accepts neither as Rego v1 nor as v0 (see InDomain: the oracle is independent
+// of regal's version detection) is outside the domain of both properties and only counted; one that OPA accepts
+// and regal fails to parse is a failure.
 package corpus
 
 import (
@@ -114,24 +115,131 @@ type Parsed struct {
 	AST *ast.Module
 }
 
-// Parse parses the way regal does for input of unknown version (v1 first, then v0).
-func Parse(m Module) (Parsed, bool) {
-	return parseAs(m.Name, m)
+// ---- the domain of the properties: "any module the parser accepts (as Rego v1 or v0)" -----------------------
+//
+// The oracle for "parses" is OPA's own parser, tried as v1 and as v0 with OPA's own capabilities — independent
+// of regal's version detection (internal/parse), which is part of the code under test: a module OPA accepts
+// that regal fails to parse is a violation of C03 (the run is lost for every file), not "outside the domain".
+//
+// A file's version is either detected by regal (plain names) or configured: the directories CfgV0Dir / CfgV1Dir
+// stand for project roots with `rego-version: 0` / `1` (the versions map every entry point hands to the parser),
+// and regal's own convention `*_v0.rego`. For a configured version the oracle is OPA's parser in that version.
+
+const (
+	CfgV0Dir = "/cfg-v0"
+	CfgV1Dir = "/cfg-v1"
+)
+
+var cfgVersions = map[string]ast.RegoVersion{CfgV0Dir: ast.RegoV0, CfgV1Dir: ast.RegoV1}
+
+var oracleCaps = ast.CapabilitiesForThisVersion()
+
+// ConfiguredVersion: the Rego version a file name is configured for ("" = regal has to detect it).
+func ConfiguredVersion(name string) string {
+	switch {
+	case strings.HasPrefix(name, CfgV0Dir+"/"):
+		return "v0"
+	case strings.HasPrefix(name, CfgV1Dir+"/"):
+		return "v1"
+	case strings.HasSuffix(name, "_v0.rego"):
+		return "v0"
+	}
+	return ""
 }
 
-func parseAs(name string, m Module) (p Parsed, ok bool) {
+func oracleParses(name, text string, v ast.RegoVersion) (ok bool) {
 	defer func() {
 		if r := recover(); r != nil {
 			ok = false
 		}
 	}()
-	in, err := rules.InputFromMap(map[string]string{name: m.Text}, nil)
+	_, err := ast.ParseModuleWithOpts(name, text, ast.ParserOptions{ProcessAnnotation: true, RegoVersion: v, Capabilities: oracleCaps})
+	return err == nil
+}
+
+// OracleVersions: under which versions OPA's parser accepts the text.
+func OracleVersions(name, text string) (v1, v0 bool) {
+	return oracleParses(name, text, ast.RegoV1), oracleParses(name, text, ast.RegoV0)
+}
+
+// InDomain: the module is one "the parser accepts": under its configured version, or else as v1 or v0.
+// The second result names the accepting version(s): "v1", "v0", "v1+v0".
+func InDomain(m Module) (bool, string) {
+	v1, v0 := OracleVersions(m.Name, m.Text)
+	which := ""
+	switch {
+	case v1 && v0:
+		which = "v1+v0"
+	case v1:
+		which = "v1"
+	case v0:
+		which = "v0"
+	}
+	switch ConfiguredVersion(m.Name) {
+	case "v0":
+		return v0, which
+	case "v1":
+		return v1, which
+	}
+	return v1 || v0, which
+}
+
+// Parse parses the way regal does (rules.InputFromMap with the versions map of the configured directories: version
+// detection v1 first, then v0, for every other name).
+func Parse(m Module) (Parsed, bool) {
+	return parseAs(m.Name, m)
+}
+
+func parseAs(name string, m Module) (Parsed, bool) {
+	p, err := parseErr(name, m)
+	return p, err == ""
+}
+
+func parseErr(name string, m Module) (p Parsed, errText string) {
+	defer func() {
+		if r := recover(); r != nil {
+			p, errText = Parsed{}, fmt.Sprintf("panic: %v", r)
+		}
+	}()
+	in, err := rules.InputFromMap(map[string]string{name: m.Text}, cfgVersions)
 	if err != nil {
-		return Parsed{}, false
+		return Parsed{}, err.Error()
 	}
 	mm := m
 	mm.Name = name
-	return Parsed{Module: mm, AST: in.Modules[name]}, true
+	return Parsed{Module: mm, AST: in.Modules[name]}, ""
+}
+
+// ParseChecked: regal's parse, and the oracle whenever regal says no. rejected != nil: the module is in the domain
+// (OPA's parser accepts it under the configured version, or as v1 or v0) and regal fails to parse it. `which`: the
+// version regal parsed the module as ("v1", "v0", "v0+rego.v1"), or the version(s) the oracle accepts.
+func ParseChecked(m Module) (p Parsed, ok bool, which string, rejected *Failure) {
+	p, e := parseErr(m.Name, m)
+	if e == "" {
+		switch p.AST.RegoVersion() {
+		case ast.RegoV0:
+			which = "v0"
+		case ast.RegoV0CompatV1:
+			which = "v0+rego.v1"
+		default:
+			which = "v1"
+		}
+		if cv := ConfiguredVersion(m.Name); cv != "" {
+			which += " (configured)"
+		}
+		return p, true, which, nil
+	}
+	in, which := InDomain(m)
+	if !in {
+		return Parsed{}, false, "", nil
+	}
+	mode := "version detected by regal"
+	if cv := ConfiguredVersion(m.Name); cv != "" {
+		mode = "version configured: " + cv
+		which = cv
+	}
+	return Parsed{}, false, which, &Failure{Key: "parse: regal rejects a module that OPA's parser accepts as " + which + " (" + mode + ")",
+		Modules: []Module{m}, Err: "OPA's parser accepts the module as " + which + "; regal: " + e}
 }
 
 // Shift returns the module with k blank lines inserted at the very top (before anything else).
@@ -161,6 +269,22 @@ type Outcome struct {
 
 // LintBatch lints the modules in ONE linter.Lint call with every rule enabled.
 func LintBatch(mods []Parsed, timeout time.Duration) (out Outcome) {
+	return LintBatchRules(mods, timeout, nil)
+}
+
+// AllRuleNames: the names of all rules of the bundle under test (what "any subset of rules" ranges over).
+func AllRuleNames() []string {
+	names, err := linter.NewLinter().WithEnableAll(true).DetermineEnabledRules(context.Background())
+	if err != nil {
+		return nil
+	}
+	sort.Strings(names)
+	return names
+}
+
+// LintBatchRules: ONE linter.Lint call over the modules with every rule enabled (only == nil) or with exactly the
+// rules named in `only` enabled (the property quantifies over any subset of rules).
+func LintBatchRules(mods []Parsed, timeout time.Duration, only []string) (out Outcome) {
 	fc := map[string]string{}
 	ms := map[string]*ast.Module{}
 	for _, p := range mods {
@@ -177,7 +301,11 @@ func LintBatch(mods []Parsed, timeout time.Duration) (out Outcome) {
 			out.Err = fmt.Sprintf("panic: %v", r)
 		}
 	}()
-	rep, err := linter.NewLinter().WithEnableAll(true).WithInputModules(&in).Lint(ctx)
+	l := linter.NewLinter().WithEnableAll(true)
+	if only != nil {
+		l = linter.NewLinter().WithDisableAll(true).WithEnabledRules(only...)
+	}
+	rep, err := l.WithInputModules(&in).Lint(ctx)
 	if err != nil {
 		out.Err = err.Error()
 		if ctx.Err() != nil {
@@ -195,24 +323,32 @@ type Failure struct {
 	Modules []Module `json:"modules"` // minimal failing subset found (usually one module)
 	Err     string   `json:"err"`
 	Timeout bool     `json:"timeout"`
+	// Opt: how the modules have to be linted to see the failure, when not "once, every rule enabled" (large runs,
+	// rule subsets); part of the replay
+	Opt *BatchOpt `json:"opt,omitempty"`
 }
 
 // Bisect narrows a failing batch down to a smallest failing subset (1-minimal with respect to removing
 // halves, then single modules).
 func Bisect(mods []Parsed, timeout time.Duration) Failure {
+	return BisectWith(mods, func(ms []Parsed) Outcome { return LintBatch(ms, timeout) })
+}
+
+// BisectWith: Bisect for any way of linting a batch (rule subsets).
+func BisectWith(mods []Parsed, LintBatch func([]Parsed) Outcome) Failure {
 	cur := mods
-	out := LintBatch(cur, timeout)
+	out := LintBatch(cur)
 	if out.Err == "" {
 		return Failure{}
 	}
 	for len(cur) > 1 {
 		half := len(cur) / 2
 		a, b := cur[:half], cur[half:]
-		if o := LintBatch(a, timeout); o.Err != "" {
+		if o := LintBatch(a); o.Err != "" {
 			cur, out = a, o
 			continue
 		}
-		if o := LintBatch(b, timeout); o.Err != "" {
+		if o := LintBatch(b); o.Err != "" {
 			cur, out = b, o
 			continue
 		}
@@ -222,7 +358,7 @@ func Bisect(mods []Parsed, timeout time.Duration) Failure {
 			changed = false
 			for i := range cur {
 				rest := append(append([]Parsed{}, cur[:i]...), cur[i+1:]...)
-				if o := LintBatch(rest, timeout); o.Err != "" {
+				if o := LintBatch(rest); o.Err != "" {
 					cur, out, changed = rest, o, true
 					break
 				}
@@ -271,6 +407,17 @@ func FailureKey(e string) string {
 		return "hang"
 	}
 	if strings.Contains(e, "worker crashed") {
+		if strings.Contains(e, "WARNING: DATA RACE") {
+			return raceKey(e)
+		}
+		if i := strings.Index(e, "fatal error:"); i >= 0 && (strings.Index(e, "panic:") < 0 || i < strings.Index(e, "panic:")) {
+			// runtime fatals (concurrent map writes, all goroutines asleep, stack overflow) are not panics: nothing recovers them
+			l := e[i:]
+			if j := strings.Index(l, "\n"); j >= 0 {
+				l = l[:j]
+			}
+			return clipTo(l, 120)
+		}
 		if i := strings.Index(e, "panic:"); i >= 0 {
 			l := e[i:]
 			if j := strings.Index(l, "\n"); j >= 0 {
@@ -283,11 +430,57 @@ func FailureKey(e string) string {
 	return ErrClass(e)
 }
 
+var reRaceFrame = regexp.MustCompile(`(?m)^  (github\.com/styrainc/regal/[^\s(]+)`)
+
+// raceKey: signature of a race detector report — the first functions of the code under test on the two stacks
+// (no line numbers, no goroutine ids).
+func raceKey(e string) string {
+	i := strings.Index(e, "WARNING: DATA RACE")
+	var fs []string
+	for _, m := range reRaceFrame.FindAllStringSubmatch(e[i:], -1) {
+		f := strings.TrimPrefix(m[1], "github.com/styrainc/regal/")
+		if len(fs) == 0 || fs[len(fs)-1] != f {
+			fs = append(fs, f)
+		}
+		if len(fs) == 2 {
+			break
+		}
+	}
+	return clipTo("data race: "+strings.Join(fs, " / "), 160)
+}
+
 func clipTo(s string, n int) string {
 	if len(s) > n {
 		return s[:n]
 	}
 	return s
+}
+
+// MinimiseRaw deletes lines (chunks, then single lines) of a module text while the predicate on the TEXT holds
+// (for failures before a module is parsed by regal).
+func MinimiseRaw(m Module, holds func(Module) bool, budget int) Module {
+	lines := strings.Split(m.Text, "\n")
+	try := func(ls []string) bool {
+		if budget <= 0 {
+			return false
+		}
+		budget--
+		mm := m
+		mm.Text = strings.Join(ls, "\n")
+		return holds(mm)
+	}
+	for chunk := len(lines) / 2; chunk >= 1; chunk /= 2 {
+		for i := 0; i+chunk <= len(lines); {
+			cand := append(append([]string{}, lines[:i]...), lines[i+chunk:]...)
+			if len(cand) > 0 && try(cand) {
+				lines = cand
+			} else {
+				i += chunk
+			}
+		}
+	}
+	m.Text = strings.Join(lines, "\n")
+	return m
 }
 
 // MinimiseText deletes lines (chunks, then single lines) of a single failing module while the module still
